@@ -16,14 +16,15 @@ import itertools
 from lib import import_impl, outcome, is_error, cnf_sat, pb_sat, assignments, family_replies, lit_true
 
 META = dict(
-    technique='Coq theorem cnf_opb_same_models over the IR of builder calls (+ per-family irs_ok lemmas) + differential build of every family under both formula classes and both command line tools against to_cnf/to_opb of the extracted model',
+    technique='Coq theorem cnf_opb_same_models over the IR of builder calls (+ per-family irs_ok lemmas) + differential build of every family under both formula classes and both command line tools against to_cnf/to_opb of the extracted model + whole-program model of pbgen (argv -> bytes) with the tool-level theorem tools_same_variables_and_models, compared byte for byte with the real pbgen',
     category='proof',
     text='Theorem: for every list of builder calls (add_clause, cardinality_*, add_parity, majorities) with non-zero literals, the clause list '
          'class CNF produces and the constraint list class OPB produces are satisfied by exactly the same assignments; each family model is '
          'such a list, so both renderings of a family have the same models, for all parameters and graphs. Same variables/names holds because '
          'the variable layout of the model does not depend on the class. Tied to the code by building every family of the registries under '
          'both classes (library and cnfgen/pbgen) and comparing numvar, names, the ordered OPB constraint list with to_opb and the clause set '
-         'with to_cnf.',
+         'with to_cnf. At the level of the tools (Prop_C08_pipeline.v): for every argv on which cnfgen and pbgen both write output, the two '
+         'texts read back as to_cnf / to_opb of one list of builder calls, with the same variable count and the same verdict on every assignment.',
     note='Trusted: Coq kernel, extraction, harness; family models are hand-written (agreement checked on enumerated small and seeded medium parameters). '
          'Families not in a registry (randkcnf, randkxor, and/or/true/false, dimacs) are compared CNF-vs-OPB directly by brute force only.',
     design_ref='5/C08',
